@@ -437,6 +437,17 @@ func (run *c15Run) evalPattern(c *Ctx, r *RNG, baseIdx int, p *c15Pattern) SX {
 	}
 	c.Hist("outcome:accept")
 	corr := run.correlationHolds(sent)
+	if strings.HasPrefix(p.Class, "response-alteration:") && len(p.Flips) == 0 {
+		// matrix untouched: the sender's value is (t0,t1) xor dx*Delta, so the altered response
+		// satisfies the check equation iff the seed is unchanged and (dt0,dt1) = dx*Delta
+		lo, hi := c15Clmul(p.DX, run.delta)
+		if p.Seed != nil || lo != p.DT0 || hi != p.DT1 {
+			c.Fail("c15:"+p.Class+":accepted",
+				fmt.Sprintf("IKNPSender.Send returned nil although the challenge response was altered in transit and no longer satisfies the check equation (shape %s: dx=%s dt0=%s dt1=%s seed replaced=%v; n=%d)",
+					strings.TrimPrefix(p.Class, "response-alteration:"), p.DX, p.DT0, p.DT1, p.Seed != nil, run.n),
+				rep("accept", "error"))
+		}
+	}
 	if !corr {
 		what := fmt.Sprintf("sender accepted but its outputs violate the correlation for the receiver's original choices (class %s, %d flip(s), %d in selected columns of payload rows)", p.Class, len(p.Flips), selPay)
 		if trivial {
@@ -682,6 +693,97 @@ func (run *c15Run) chiDistinct() bool {
 		seen[l] = true
 	}
 	return true
+}
+
+// c15Clmul: carry-less product of two labels (polynomial order) with math/big,
+// independent of ot.mul128
+func c15Clmul(a, b ot.Label) (lo, hi ot.Label) {
+	av, bv := c15Poly(a), c15Poly(b)
+	acc := new(big.Int)
+	for i := 0; i < 128; i++ {
+		if av.Bit(i) == 1 {
+			acc.Xor(acc, new(big.Int).Lsh(bv, uint(i)))
+		}
+	}
+	m := new(big.Int).Lsh(big.NewInt(1), 128)
+	m.Sub(m, big.NewInt(1))
+	return c15FromPoly(new(big.Int).And(acc, m)), c15FromPoly(new(big.Int).Rsh(acc, 128))
+}
+
+// responsePatterns: STRUCTURED in-transit alterations of every element of the
+// challenge response (seed2, x, t0, t1), matrix untouched.  Expressed as xor
+// masks on the labels as sent (absolute replacements are converted).
+func (run *c15Run) responsePatterns(r *RNG) []*c15Pattern {
+	x, t0, t1 := run.response()
+	var ps []*c15Pattern
+	type target struct {
+		name string
+		set  func(p *c15Pattern, m ot.Label)
+		cur  ot.Label
+	}
+	targets := []target{
+		{"t0", func(p *c15Pattern, m ot.Label) { p.DT0 = m }, t0},
+		{"t1", func(p *c15Pattern, m ot.Label) { p.DT1 = m }, t1},
+		{"x", func(p *c15Pattern, m ot.Label) { p.DX = m }, x},
+		{"seed", func(p *c15Pattern, m ot.Label) { s := run.seed; s.Xor(m); p.Seed = &s }, run.seed},
+	}
+	add := func(shape string, tg target, m ot.Label) {
+		if m == (ot.Label{}) {
+			return
+		}
+		p := &c15Pattern{Class: "response-alteration:" + shape + ":" + tg.name}
+		tg.set(p, m)
+		ps = append(ps, p)
+	}
+	ones := ot.Label{D0: ^uint64(0), D1: ^uint64(0)}
+	for _, tg := range targets {
+		// single bits
+		add("single-bit", tg, c15Bit(r.Intn(128)))
+		add("single-bit", tg, c15Bit(0))
+		add("single-bit", tg, c15Bit(127))
+		// mirrored pairs: bit k and bit k+64
+		for _, k := range []int{0, 63, r.Intn(64), r.Intn(64)} {
+			add("mirrored-pair", tg, ot.Label{D0: 1 << uint(k), D1: 1 << uint(k)})
+		}
+		// mirrored random 64-bit masks
+		m := r.U64()
+		add("mirrored-mask", tg, ot.Label{D0: m, D1: m})
+		add("mirrored-mask", tg, ot.Label{D0: ^uint64(0), D1: ^uint64(0)})
+		// one half only
+		add("low-half-mask", tg, ot.Label{D0: r.U64()})
+		add("high-half-mask", tg, ot.Label{D1: r.U64()})
+		// swapped halves
+		sw := ot.Label{D0: tg.cur.D1, D1: tg.cur.D0}
+		sw.Xor(tg.cur)
+		add("swapped-halves", tg, sw)
+		// all zero / all ones
+		add("all-zero", tg, tg.cur)
+		az := tg.cur
+		az.Xor(ones)
+		add("all-ones", tg, az)
+		// random
+		add("random", tg, c15RandLabel(r))
+	}
+	// t0 <-> t1
+	d := t0
+	d.Xor(t1)
+	if d != (ot.Label{}) {
+		ps = append(ps, &c15Pattern{Class: "response-alteration:t0-t1-swapped", DT0: d, DT1: d})
+	}
+	// both tags with the same mirrored mask; x and both tags with the same mask
+	m := r.U64()
+	ps = append(ps, &c15Pattern{Class: "response-alteration:mirrored-mask:t0+t1", DT0: ot.Label{D0: m, D1: m}, DT1: ot.Label{D0: m, D1: m}})
+	ps = append(ps, &c15Pattern{Class: "response-alteration:mirrored-pair:t0+t1", DT0: ot.Label{D0: 2, D1: 2}, DT1: ot.Label{D0: 1 << 40, D1: 1 << 40}})
+	mm := c15RandLabel(r)
+	ps = append(ps, &c15Pattern{Class: "response-alteration:same-mask:x+t0+t1", DX: mm, DT0: mm, DT1: mm})
+	// x altered with a compensating tag change computed from public data only: the tamperer
+	// does not know Delta; its best public guesses are dx*chi_0 and dx*x
+	dx := c15Bit(r.Intn(128))
+	lo, hi := c15Clmul(dx, run.chi[0])
+	ps = append(ps, &c15Pattern{Class: "response-alteration:x+compensated-from-public-chi", DX: dx, DT0: lo, DT1: hi})
+	lo, hi = c15Clmul(dx, x)
+	ps = append(ps, &c15Pattern{Class: "response-alteration:x+compensated-from-public-x", DX: dx, DT0: lo, DT1: hi})
+	return ps
 }
 
 func (run *c15Run) patternSX(p *c15Pattern) SX {
@@ -1068,7 +1170,7 @@ func runC15(c *Ctx) error {
 	sizes := []int{0, 1, 2, 3, 5, 7, 8, 9, 13, 15, 16, 17, 31, 33, 63, 64, 65, 100, 127, 128, 129, 200, 255, 256, 257, 300}
 	bigSizes := []int{511, 512, 513, 520, 777, 1023, 1024, 1025, 1100, 1536, 2049}
 	nBase := c.N(26, 600)
-	perBase := c.N(4, 12)
+	perBase := c.N(3, 12)
 	for i := 0; i < nBase; i++ {
 		r := c.rng.Fork()
 		n := sizes[i%len(sizes)]
@@ -1104,9 +1206,27 @@ func runC15(c *Ctx) error {
 				nadd++
 			}
 		}
+		// structured alterations of the challenge response: one mirrored shape (cycling over
+		// t0, t1, x, seed and pair/mask/swapped) in the correspondence case, all on the implementation
+		rp := run.responsePatterns(r)
+		var mirroredPs []*c15Pattern
+		for _, p := range rp {
+			if strings.Contains(p.Class, "mirrored") || strings.Contains(p.Class, "swapped") {
+				mirroredPs = append(mirroredPs, p)
+			}
+		}
+		if len(mirroredPs) > 0 {
+			pats = append(pats, mirroredPs[(i*7)%len(mirroredPs)])
+			if c.Thorough() {
+				pats = append(pats, mirroredPs[(i*7+3)%len(mirroredPs)], rp[(i*5)%len(rp)])
+			}
+		}
 		run.emitCase(c, r, i, pats)
 		// ... the others on the implementation only
 		for _, p := range mp {
+			run.evalPattern(c, r, i, p)
+		}
+		for _, p := range rp {
 			run.evalPattern(c, r, i, p)
 		}
 		if !run.chiDistinct() {
